@@ -25,8 +25,12 @@ Local == <<108, 111, 99, 97, 108>>
 A1 == <<97>>
 B1 == <<98>>
 
+AdotB == <<97, 46, 98>>          \* one label "a.b": a dot inside a label is legal on the wire
 Names == {<<Foo, Bar>>, <<Foobar>>, <<My, Local>>, <<Mysrv, Local>>, <<A1, Mysrv, Local>>, <<B1, Mysrv, Local>>,
-          <<Local>>, <<Bar>>, <<A1, B1, Mysrv, Local>>, <<B1, A1, Mysrv, Local>>, <<A1, Foobar>>}
+          <<Local>>, <<Bar>>, <<A1, B1, Mysrv, Local>>, <<B1, A1, Mysrv, Local>>, <<A1, Foobar>>,
+          \* [a.b][local] vs [b][a][local] vs [a][local]: equal or prefix-related under a root-first key that joins
+          \* labels with dots (local.a.b.)
+          <<AdotB, Local>>, <<B1, A1, Local>>, <<A1, Local>>}
 
 Rec(n, t, c, rd) == [name |-> n, type |-> t, class |-> c, cf |-> FALSE, ttl |-> <<0, 0, 0, 120>>, rd |-> rd]
 Catalogue ==
@@ -96,7 +100,13 @@ Op(x) ==
     LET seen == {x[i].rec : i \in {j \in 1 .. Len(x) : x[j].op = "add_cached"}}
         again == IF seen = {} THEN RandomElement(ExpiryCat) ELSE RandomElement(seen)
         shortTtl == TtlBytes(RandomElement({0, 1, 1, 2, 2})) IN
-    CASE die <= 2 -> [op |-> "add_auth", rec |-> RandomElement(ExpiryCat)]
+    \* probe pattern: a reception is often followed by a pause shorter or longer than the record's life and
+    \* then by a look at exactly that name (TTL 0 must be invisible at once, 1 s after 1 s, ...)
+    CASE Len(x) >= 1 /\ x[Len(x)].op = "add_cached" /\ die <= 9 ->
+           [op |-> "sleep", ms |-> RandomElement({300, 300, 600, 900, 1200})]
+      [] Len(x) >= 2 /\ x[Len(x)].op = "sleep" /\ x[Len(x) - 1].op = "add_cached" /\ die <= 15 ->
+           [op |-> "query", name |-> x[Len(x) - 1].rec.name, filter |-> RandomElement({"cached", "cached", "all"})]
+      [] die <= 2 -> [op |-> "add_auth", rec |-> RandomElement(ExpiryCat)]
       [] die <= 6 -> [op |-> "add_cached",
                       rec |-> [RandomElement(ExpiryCat) EXCEPT !.ttl = TtlBytes(RandomElement({0, 1, 2, 1000, 1000, 1000})),
                                                                !.cf = RandomElement({FALSE, FALSE, FALSE, TRUE})]]
